@@ -48,6 +48,8 @@ use iroh_relay::tls::CaTlsConfig;
 use serde_json::json;
 
 const GATE: &str = "netreport.after_done_signal";
+/// between the release of the report lock and the done signal of a finishing run
+const GATE_UNLOCKED: &str = "netreport.between_unlock_and_done";
 
 #[derive(Default, Clone, Copy, Debug)]
 struct Counts {
@@ -360,6 +362,61 @@ fn main() {
             }
             run_oracle(&rep, "controlled", it, json!({"requests_while_running": n_req, "spin": spin}));
         }
+
+        // ---- controlled mode 2: the window between lock release and done signal.
+        // Run 1 is held after it released the report lock but before it signalled completion;
+        // request A then starts run 2 at once (lock free), request B is deferred (run 2 in
+        // flight); releasing run 1 makes the socket actor handle its completion while run 2
+        // holds the lock.  B must still be started when run 2 finishes.
+        let iters2 = if a.replay.is_some() { 3 } else { a.pick(25, 100) };
+        for it in 0..iters2 {
+            if !idle(Duration::from_secs(40)).await {
+                rep.inconclusive("not-quiescent-before-iteration");
+                continue;
+            }
+            let base = gate::events().len();
+            gate::arm(GATE_UNLOCKED, 1);
+            request(&ep, &bogus).await;
+            let held = tokio::task::spawn_blocking(|| gate::wait_held(GATE_UNLOCKED, Duration::from_secs(60))).await.unwrap_or(false);
+            if !held {
+                gate::disarm(GATE_UNLOCKED);
+                gate::release(GATE_UNLOCKED);
+                rep.inconclusive("unlock-gate-not-reached");
+                let _ = settle(Duration::from_secs(40)).await;
+                continue;
+            }
+            let starts_before = gate::events()[base..].iter().filter(|e| e.name == "netreport.run_start").count();
+            // A: lock is free, run 2 starts immediately
+            request(&ep, &bogus).await;
+            let run2 = wait_until(Duration::from_secs(20), |evs| evs[base..].iter().filter(|e| e.name == "netreport.run_start").count() > starts_before).await;
+            // B: deferred while run 2 is in flight
+            request(&ep, &bogus).await;
+            let evs_now = gate::events();
+            let c = counts(&evs_now);
+            let run2_in_flight = run2 && c.ended < c.started;
+            let b_deferred = evs_now[base..].iter().rev().find(|e| e.name == "netreport.request").map(|e| e.get("outcome") == Some("deferred")).unwrap_or(false);
+            gate::release(GATE_UNLOCKED);
+            let settled = settle(Duration::from_secs(40)).await;
+            let evs = gate::events();
+            rep.eval();
+            rep.count("unlock_window.iterations", 1);
+            if !settled {
+                rep.inconclusive("iteration-did-not-settle");
+            }
+            let busy_handled = evs[base..].iter().any(|e| e.name == "netreport.done_handled" && e.get("lock") == Some("busy") && e.get("wanted") == Some("true"));
+            if run2_in_flight && b_deferred {
+                rep.count("unlock_window.request_deferred_behind_second_run", 1);
+            }
+            if busy_handled {
+                rep.count("unlock_window.completion_handled_while_lock_busy_with_request_pending", 1);
+                let names: Vec<&str> = evs[base..].iter().map(|e| e.name).collect();
+                rep.nontrivial(format!("unlock{names:?}").as_bytes());
+                if rep.want_sample() {
+                    rep.sample(json!({"mode": "unlock-window", "events": ev_json(&evs[base..])}));
+                }
+            }
+            run_oracle(&rep, "unlock-window", it, json!({"mode": "unlock-window"}));
+        }
         rep.set_extra("controlled_seconds", json!(t_ctl.elapsed().as_secs_f64()));
 
         // ---- stress mode: seeded sleeps at the pause point, rapid requests
@@ -428,6 +485,7 @@ fn main() {
     });
     if a.replay.is_none() {
         rep.require("controlled.finishing_task_held", 8);
+        rep.require("unlock_window.completion_handled_while_lock_busy_with_request_pending", 5);
         rep.require("controlled.requests_deferred_during_run", 8);
         rep.require("stress.deferred_requests_handled", 5);
         rep.require("events.run_end", 20);
